@@ -235,6 +235,9 @@ class NonBondEngine():
         """
         for mol_idx, molecule in enumerate(molecules):
             for node in molecule.nodes:
+                # molecules that were ignored are not part of the engine
+                if (mol_idx, node) not in self.nodes_to_gndx:
+                    continue
                 gndx = self.nodes_to_gndx[(mol_idx, node)]
                 molecule.nodes[node]["position"] = self.positions[gndx]
 
@@ -344,7 +347,7 @@ class NonBondEngine():
         return prob
 
     @classmethod
-    def from_topology(cls, molecules, topology, box):
+    def from_topology(cls, molecules, topology, box, ignore=()):
         """
         Create a class instance from a topology object,
         a list of molecules and a box.
@@ -354,9 +357,13 @@ class NonBondEngine():
         molecules: list
         topology: :class:`polyply.src.topology`
         box: np.nadarray
+        ignore: list[str]
+            names of molecules that are left out; the remaining
+            molecules keep their index in `molecules`
         """
 
-        n_atoms = _n_particles(molecules)
+        n_atoms = _n_particles([molecule for molecule in molecules
+                                if molecule.mol_name not in ignore])
 
         # array of all positions
         positions = np.ones((n_atoms, 3)) * np.inf
@@ -368,6 +375,9 @@ class NonBondEngine():
         idx = 0
         mol_count = 0
         for molecule in molecules:
+            if molecule.mol_name in ignore:
+                mol_count += 1
+                continue
             for node in molecule.nodes:
                 if "position" in molecule.nodes[node]:
                     # check if position is inside grid
